@@ -44,43 +44,68 @@ def run(rep, prog, tier):
     generic.rule_def(rep, nm, cp)
     params = positional_params(cp)
     rep.ob('R-IDX', '_cached_projection signature', params == ['proj_to', 'proj_from', 'hits'], 'parameters %s' % params, nm.rel, cp.lineno, what='(proj_to, proj_from, hits)')
-    # the else-branch computing lncontrib
+    # the regime switch: short circuit for proj_from < proj_to, log-space computation otherwise (found by what the branches do,
+    # not by the names of their variables)
     blk = None
     for n in own_nodes(cp):
-        if isinstance(n, ast.If) and any(isinstance(x, ast.Assign) and ast.unparse(x.targets[0]) == 'lncontrib' for x in n.orelse):
+        if isinstance(n, ast.If) and n.orelse and any(isinstance(c, ast.Call) and dotted(c.func) == '_lncomb' for x in n.orelse for c in ast.walk(x)):
             blk = n
     if blk is None:
         raise AnalysisError('anchor vanished: log-space computation in _cached_projection')
-    stmts = [x for x in blk.orelse if isinstance(x, (ast.Assign, ast.AugAssign)) and ast.unparse(x.targets[0] if isinstance(x, ast.Assign) else x.target) in ('proj_hits', 'lncontrib', 'contrib')]
+    from sa.algebra import exp_of
+
+    def eval_branch(stmts_):
+        """symbolic values of the locals after the branch; the hit-count vector arange(proj_to+1) is the atom j"""
+        tr_ = Translator({})
+        stored = None
+        okh_ = None
+        for x in stmts_:
+            if isinstance(x, ast.Assign) and len(x.targets) == 1:
+                t_ = x.targets[0]
+                if isinstance(x.value, ast.Call) and (dotted(x.value.func) or '').replace('np.', 'numpy.') == 'numpy.arange' and isinstance(t_, ast.Name):
+                    okh_ = (ast.unparse(x.value).replace('np.', 'numpy.') == 'numpy.arange(proj_to + 1)', x)
+                    tr_.env[t_.id] = Rat.atom('j')
+                    continue
+                if isinstance(x.value, ast.Call) and dotted(x.value.func) == 'numpy.seterr':
+                    continue
+                v_ = tr_.tr(x.value)
+                if isinstance(t_, ast.Name):
+                    tr_.env[t_.id] = v_
+                elif ast.unparse(t_) == '_projection_cache[key]':
+                    stored = v_
+            elif isinstance(x, ast.AugAssign) and isinstance(x.target, ast.Name) and isinstance(x.op, (ast.Add, ast.Sub)):
+                cur = tr_.env[x.target.id]
+                v_ = tr_.tr(x.value)
+                tr_.env[x.target.id] = cur + v_ if isinstance(x.op, ast.Add) else cur - v_
+        return tr_.env, stored, okh_
+    okf = okc = oks = False
+    res_name = None
     try:
-        env = {}
-        tr = Translator(env)
-        for x in stmts:
-            tgt = ast.unparse(x.targets[0] if isinstance(x, ast.Assign) else x.target)
-            if tgt == 'proj_hits':
-                okh = ast.unparse(x.value).replace('np.', 'numpy.') == 'numpy.arange(proj_to + 1)'
-                rep.ob('R-ALG', '_cached_projection hits range', okh, ast.unparse(x), nm.rel, x.lineno, what='target hit counts j = 0..proj_to')
-                tr.env['proj_hits'] = Rat.atom('j')
-            elif isinstance(x, ast.Assign):
-                tr.env[tgt] = tr.tr(x.value)
-            else:
-                cur = tr.env[tgt]
-                v = tr.tr(x.value)
-                tr.env[tgt] = cur + v if isinstance(x.op, ast.Add) else cur - v
+        env_e, stored_e, okh = eval_branch(blk.orelse)
+        env_i, stored_i, _ = eval_branch(blk.body)
+        if okh is not None:
+            rep.ob('R-ALG', '_cached_projection hits range', okh[0], ast.unparse(okh[1]), nm.rel, okh[1].lineno, what='target hit counts j = 0..proj_to')
         ref = parse_expr('_lncomb(proj_to, j) + _lncomb(proj_from - proj_to, hits - j) - _lncomb(proj_from, hits)')
-        okf = tr.env['lncontrib'].equals(ref)
-        from sa.algebra import exp_of
-        okc = tr.env['contrib'].equals(exp_of(ref))
+        want = exp_of(ref)
+        # the value that reaches the cache: stored inside the branch, or through a local stored after the switch
+        after = [x for x in own_nodes(cp) if isinstance(x, ast.Assign) and ast.unparse(x.targets[0]) == '_projection_cache[key]' and x not in blk.body and x not in blk.orelse]
+        if stored_e is None and after and isinstance(after[0].value, ast.Name):
+            res_name = after[0].value.id
+            stored_e, stored_i = env_e.get(res_name), env_i.get(res_name)
+        okc = stored_e is not None and stored_e.equals(want)
+        okf = any(v.equals(ref) for v in env_e.values()) or okc
+        conj = [ast.unparse(v) for v in (blk.test.values if isinstance(blk.test, ast.BoolOp) and isinstance(blk.test.op, ast.And) else [blk.test])]
+        oks = stored_i is not None and stored_i.equals(parse_expr('zeros(proj_to + 1)')) and 'proj_from < proj_to' in conj and \
+            not any(isinstance(x, (ast.If, ast.For, ast.While)) or (isinstance(x, ast.Assign) and isinstance(x.targets[0], ast.Subscript) and ast.unparse(x.targets[0]) != '_projection_cache[key]') for x in blk.body)
     except (AlgebraError, KeyError) as e:
         okf = okc = False
-    rep.ob('R-ALG', '_cached_projection weights', okf and okc, 'ln w_j = lnC(to,j) + lnC(from-to,hits-j) - lnC(from,hits); contrib = exp(.)', nm.rel, blk.lineno, what='hypergeometric log-pmf')
-    sc = [x for x in blk.body if isinstance(x, ast.Assign) and ast.unparse(x.targets[0]) == 'contrib']
-    oks = bool(sc) and ast.unparse(sc[0].value).replace('np.', 'numpy.') == 'numpy.zeros(proj_to + 1)' and 'proj_from < proj_to' in ast.unparse(blk.test)
+    rep.ob('R-ALG', '_cached_projection weights', okf and okc, 'ln w_j = lnC(to,j) + lnC(from-to,hits-j) - lnC(from,hits); cached weights = exp(.)', nm.rel, blk.lineno, what='hypergeometric log-pmf')
     rep.ob('R-ALG', '_cached_projection upward', oks, 'projecting upward contributes zeros(proj_to+1)', nm.rel, blk.lineno, what='short circuit for proj_from < proj_to')
     c20.rule_key_full(rep, prog, NUM, '_cached_projection', '_projection_cache')
     st = [n for n in own_nodes(cp) if isinstance(n, ast.Assign) and ast.unparse(n.targets[0]) == '_projection_cache[key]']
     rets = [ast.unparse(n.value) for n in own_nodes(cp) if isinstance(n, ast.Return)]
-    rep.ob('R-FLOW', '_cached_projection return', bool(st) and ast.unparse(st[0].value) == 'contrib' and set(rets) == {'_projection_cache[key]', 'contrib'}, 'stores and returns the computed weights; returns %s' % rets,
+    okret = bool(st) and bool(rets) and set(rets) <= {'_projection_cache[key]'} | ({res_name} if res_name else set()) and '_projection_cache[key]' in rets + [ast.unparse(x.targets[0]) for x in st]
+    rep.ob('R-FLOW', '_cached_projection return', okret, 'stores the computed weights under the key and returns the stored object; returns %s' % rets,
            nm.rel, cp.lineno, what='cache hit and miss return the same object')
     errs = [n for n in own_nodes(cp) if isinstance(n, ast.Call) and dotted(n.func) == 'numpy.seterr']
     okr = len(errs) == 2 and any(k.arg is None for k in errs[1].keywords)
